@@ -190,8 +190,89 @@ def make_request_body_multipart(typed):
     return q
 
 
+class FaultStream(stubs.SymStream):
+    """SymStream whose k-th read() raises once (a socket timeout); k = 0: never"""
+    def __init__(self, avail, frags, data, fail_at):
+        stubs.SymStream.__init__(self, avail, frags, data=data)
+        self.fail_at, self.calls = fail_at, 0
+
+    def read(self, n=-1):
+        self.calls += 1
+        if self.calls == self.fail_at:
+            self.asked.append(n)
+            self.given.append(0)
+            raise OSError("timed out")
+        return stubs.SymStream.read(self, n)
+
+
+def make_wsgi(a):
+    """through Ombott.__call__: the handler reads the body, ignores it, or reads it and goes on after a failure; the body
+    may be refused (max_body_size) or the stream may fail once at its k-th read.  Whatever happens up to the end of the
+    response (framework code that runs after the handler included), no read asks for a byte beyond Content-Length."""
+    import ombott
+    data = bytes(range(65, 65 + a))
+
+    def q(c: int, t: int, f1: int, f2: int, hk: int, mb: int, fault: int):
+        assume(0 <= c <= a + 1 and 1 <= t <= 5 and 1 <= f1 <= 4 and 1 <= f2 <= 4)
+        assume(0 <= hk <= 2 and -1 <= mb <= a and 0 <= fault <= 4)
+        s = FaultStream(a, [f1, f2], data, fault)
+        app = ombott.Ombott({"max_memfile_size": t, "max_body_size": None if mb < 0 else mb})
+        seen = []
+
+        def handler():
+            if hk == 1:
+                return "ignored"
+            if hk == 0:
+                seen.append(app.request.body.read())
+                return "read"
+            try:
+                seen.append(app.request.body.read())
+            except OSError:
+                seen.append("stream failed")
+            return "went on"
+        app.route("/u", method="POST", callback=handler)
+        env = {"REQUEST_METHOD": "POST", "PATH_INFO": "/u", "wsgi.input": s, "CONTENT_LENGTH": str(c), "SERVER_NAME": "h",
+               "SERVER_PORT": "80", "wsgi.url_scheme": "http",
+               "wsgi.errors": type("E", (), {"write": staticmethod(lambda text: None)})}
+        started = []
+        out = app(env, lambda st, hd, ei=None: started.append(st))
+        b"".join(out)
+        if hasattr(out, "close"):
+            out.close()
+        want = data[:min(a, c)]
+        got_n = 0
+        for n, m in zip(s.asked, s.given):
+            if n is None or n <= 0 or n > c - got_n:
+                return "read(%r) beyond Content-Length %r (%r bytes received before; handler kind %d, fault at read %d, " \
+                       "max_body_size %r, answered %r): reads asked %r, given %r" % (n, c, got_n, hk, fault, mb, started, s.asked, s.given)
+            got_n += m
+        failed = 0 < fault <= len(s.asked) and s.given[fault - 1] == 0 and s.asked[fault - 1] > 0 and fault <= s.calls
+        if hk != 1 and not failed and not (0 <= mb < len(want)):
+            cover("delivered")
+            if seen != [want] or started[0][:3] != "200":
+                return "body %r (Content-Length %r, %d bytes available) presented as %r, answered %r" % (want, c, a, seen, started)
+        elif hk != 1 and failed:
+            cover("stream-failed")
+        elif hk != 1:
+            cover("refused")
+            if started[0][:3] != "413":
+                return "body of %d bytes with max_body_size %d answered %r" % (len(want), mb, started)
+        else:
+            cover("ignored")
+        return None
+    return q
+
+
 def queries(tier):
     out = []
+    for a in ([4] if tier == "quick" else [0, 2, 4, 6]):
+        out.append(Q("wsgi/a%d" % a, make_wsgi(a),
+                     "Ombott.__call__, POST with %d real bytes available: Content-Length 0..%d, max_memfile_size 1..5, two short-read "
+                     "lengths 1..4, max_body_size None or 0..%d, handler kind (reads the body / ignores it / reads it and goes on "
+                     "after a stream failure), the stream's k-th read() raises once (k in 0..4, 0 = never): all symbolic; reads "
+                     "are judged up to the end of the response" % (a, a + 1, a),
+                     timeout=200 if tier == "quick" else 600,
+                     expect_cover=(["delivered", "ignored"] + (["stream-failed", "refused"] if a else [])), family="wsgi"))
     nf = 3 if tier == "quick" else 5
     out.append(Q("iter_body/int/f%d" % nf, make_iter_body(nf, 3 if tier == "quick" else 4),
                  "all avail a, Content-Length c in [-1,2^20], buffer b in [1,2^20], %d symbolic short-read lengths, "
